@@ -141,6 +141,24 @@ Definition valid_name (nm : name) : bool := (length nm =? 32)%nat && forallb isx
 Definition gc (now : Z) (d : dir) : dir :=
   filter (fun kf => negb (valid_name (fst kf)) || timestamp_ok now (snd kf)) d.
 
+(* ---------- the allocation in read_from_file ----------
+   std::vector<char> buffer(size,0) is allocated from the size field before anything is known about the file length.
+   With limit bytes of memory available the allocation throws std::bad_alloc, which leaves load() as an exception:
+   nothing is returned and nothing is unlinked.  The tests that come before it: 8 bytes readable, deadline, 16 bytes. *)
+Inductive lres := LNone | LSome (t : Z) (d : list N) | LExc.
+Definition alloc_fails (limit : N) (now : Z) (f : list N) : bool :=
+  negb (length f <? 16)%nat && negb (hdr_deadline f <? now)%Z && (limit <? hdr_size f).
+Definition load_limited (limit : N) (now : Z) (nm : name) (d : dir) : lres * dir :=
+  match lookup nm d with
+  | Some f =>
+      if alloc_fails limit now f then (LExc, d)
+      else match load now nm d with
+           | (Some (t, x), d') => (LSome t x, d')
+           | (None, d') => (LNone, d')
+           end
+  | None => (LNone, d)
+  end.
+
 (* ---------- session_sid (src/session_sid.cpp): the only caller of the storage ----------
    valid_sid: the cookie is the letter I followed by exactly 32 lower-case hex digits (char is signed: bytes >= 128 fail
    both range tests, as they do here); load: valid_sid, storage load, and a second expiry test time(0) > timeout
